@@ -1,6 +1,5 @@
 """C34 — main UTXO lookup and chain-sync check reflect the wallet's real state."""
 META = {
-    "disabled": True,
     "level": "model_checking",
     "text": "DetermineWalletMainUtxo and EnsureWalletSyncedBetweenChains are deterministic functions of the wallet's Bitcoin "
             "surroundings and the Bridge state. The TLA+ module MainUtxo enumerates those surroundings (up to 3 transactions, confirmed "
